@@ -3,7 +3,56 @@
 usage: selftest.py [--props C05,C04] [--patches glob ...]  -> table patch x property -> exit code"""
 import argparse, glob, json, os, shutil, subprocess, sys, tempfile, concurrent.futures as cf
 VERIF = os.path.dirname(os.path.dirname(os.path.abspath(__file__)))
+SMART = True
 ALL = ["C01","C02","C03","C04","C05","C06","C07","C08","C09","C10","C11","C12","C13","C14","C15","C18","C19","C20"]
+
+_REACH = {}
+
+
+def reached_files(prop):
+    """files whose functions the property's quick analysis reaches on the clean tree (cached in /tmp): a patch that touches none of
+    them cannot change that check's outcome, so the pair is skipped"""
+    if prop in _REACH:
+        return _REACH[prop]
+    cache = f"/tmp/st_reach_{prop}.json"
+    import hashlib
+    dig = hashlib.sha1(subprocess.run(["git", "-C", "/repo", "rev-parse", "HEAD"], capture_output=True, text=True).stdout.encode()
+                       + subprocess.run(["git", "-C", VERIF, "rev-parse", "HEAD"], capture_output=True, text=True).stdout.encode()).hexdigest()
+    try:
+        d = json.load(open(cache))
+        if d["dig"] == dig:
+            files = d["files"]
+            raise KeyError
+    except KeyError:
+        extra = {"C20": {"dreye/api/units/pint.py", "dreye/api/units/__init__.py"}, "C14": {"dreye/api/estimator.py"}}
+        _REACH[prop] = set(files) | extra.get(prop, set()) | {"dreye/__init__.py", "dreye/api/__init__.py"}
+        return _REACH[prop]
+    except Exception:
+        pass
+    code = ("import sys, json; sys.path.insert(0, %r)\n"
+            "import importlib\nfrom sa.engine import Analyzer, Report\nfrom sa.model import Model\n"
+            "m = importlib.import_module('sa.props.%s'); an = Analyzer(Model('/repo'), opts=getattr(m, 'OPTS', {}))\n"
+            "rep = Report(%r, 'quick', an); m.check(rep, an, 'quick')\n"
+            "print(json.dumps(sorted({q.split(':')[0].replace('.', '/') + '.py' for q in an.funcs_reached})))" % (VERIF, prop, prop))
+    r = subprocess.run(["/venv/bin/python", "-W", "ignore", "-c", code], capture_output=True, text=True)
+    try:
+        files = json.loads(r.stdout.strip().splitlines()[-1])
+    except Exception:
+        files = None
+    if files is not None:
+        json.dump({"dig": dig, "files": files}, open(cache, "w"))
+    extra = {"C20": {"dreye/api/units/pint.py", "dreye/api/units/__init__.py"}, "C14": {"dreye/api/estimator.py"}}    # read as module / class tables
+    _REACH[prop] = (set(files) | extra.get(prop, set()) | {"dreye/__init__.py", "dreye/api/__init__.py"}) if files is not None else None
+    return _REACH[prop]
+
+
+def touched(patch):
+    out = set()
+    for l in open(patch):
+        if l.startswith(("+++ b/", "--- a/")):
+            out.add(l[6:].split("\t")[0].strip())
+    return out
+
 
 def run_one(patch, props, tier):
     d = tempfile.mkdtemp(prefix="st_", dir="/tmp")
@@ -14,9 +63,15 @@ def run_one(patch, props, tier):
             if r.returncode:
                 return patch, {"*": "NOAPPLY " + r.stdout[:100]}
         out = {}
+        tf = touched(patch) if patch != "CLEAN" and SMART else None
         for p in props:
             if not os.path.exists(os.path.join(VERIF, "sa", "props", p + ".py")):
                 continue
+            if tf is not None:
+                rf = reached_files(p)
+                if rf is not None and not (tf & rf):
+                    out[p] = (0, ["skipped: touches no file this check reads"])
+                    continue
             env = dict(os.environ, VERIF_EVIDENCE_DIR=os.path.join(d, "ev"))
             r = subprocess.run([os.path.join(VERIF, "bin", "check"), p, "--tier", tier, "--repo", d], capture_output=True, text=True, env=env)
             lines = [l for l in r.stdout.splitlines() if l.startswith(("VIOLATION", "ANALYSIS-ERROR")) or ": R-" in l]
@@ -30,8 +85,10 @@ if __name__ == "__main__":
     ap.add_argument("--props", default=",".join(ALL))
     ap.add_argument("--tier", default="quick")
     ap.add_argument("-v", action="store_true")
+    ap.add_argument("--all-pairs", action="store_true", help="run every check on every patch (default: skip pairs whose files do not meet)")
     ap.add_argument("patches", nargs="*")
     a = ap.parse_args()
+    SMART = not a.all_pairs
     patches = a.patches or (sorted(glob.glob(VERIF + "/selftest/regress/*.diff")) + sorted(glob.glob(VERIF + "/seeded/*/patch.diff")))
     patches = ["CLEAN"] + [os.path.abspath(p) for p in patches]
     props = a.props.split(",")
